@@ -6,7 +6,7 @@ response-side reading of object schemas (visitJSONObject: the `asrep` branches).
 
 Modelled branch by branch, in the order of the code:
   * HEAD requests and the status codes 304, 308, 307, 301 return nil before anything else;
-  * an empty responses map returns nil (even when IncludeResponseStatus is set);
+  * an empty responses map returns nil unless IncludeResponseStatus is set (since the fix of F-C08-3, commit c48114b);
   * Responses.Status: exact code, then the class key "1XX".."5XX" (for 100..599 only); then Default;
   * no entry: nil unless IncludeResponseStatus;
   * declared headers except the one named exactly "Content-Type", in sorted name order, first error returned
